@@ -42,6 +42,8 @@ Inductive stmt :=
 | Ret
 | Callback                       (* dynamic call: user handler, registered handler, func value *)
 | Join                           (* WaitGroup.Wait: waits for goroutines that may call anything *)
+| Blocking                       (* potentially unbounded wait on the outside world: socket / bufio I/O, dial,
+                                    channel operation without default or timer, time.Sleep, <-time.After *)
 | Unknown.                       (* construct the translator does not understand *)
 
 Definition DeferRel (m : nat) (md : mode) : stmt := Defer (DRel m md).
@@ -50,7 +52,8 @@ Definition DeferRel (m : nat) (md : mode) : stmt := Defer (DRel m md).
 Inductive xitem :=
 | XLoc (l : nat)       (* accesses to location class l are not checked *)
 | XYield               (* dynamic calls / joins are not checked, and are assumed not to call the client *)
-| XOrd (m : nat).      (* acquisitions of m are not checked against the rank order *)
+| XOrd (m : nat)       (* acquisitions of m are not checked against the rank order *)
+| XBlock.              (* blocking operations are not checked *)
 
 Record program := {
   p_funs : list stmt;             (* function id -> body *)
@@ -70,7 +73,8 @@ Inductive ev :=
 | ERel (m : nat) (md : mode)
 | ERd (l : nat) (x : bool)
 | EWr (l : nat) (x : bool)
-| EYield (x : bool).
+| EYield (x : bool)
+| EBlock (x : bool).
 
 Inductive outcome := ONormal | OJump (lbl : nat) | ORet.
 
@@ -121,6 +125,7 @@ Definition xitem_eqb (a b : xitem) : bool :=
   | XLoc l, XLoc l' => Nat.eqb l l'
   | XYield, XYield => true
   | XOrd m, XOrd m' => Nat.eqb m m'
+  | XBlock, XBlock => true
   | _, _ => false
   end.
 
@@ -183,6 +188,7 @@ Inductive exec : list xitem -> stmt -> list dact -> list ev -> outcome -> list d
 | X_cb_x ex ds : xin ex XYield = true -> exec ex Callback ds [EYield true] ONormal ds
 | X_cb ex ds tr : xin ex XYield = false -> runs tr -> exec ex Callback ds (EYield false :: tr) ONormal ds
 | X_join ex ds : exec ex Join ds [EYield (xin ex XYield)] ONormal ds
+| X_blocking ex ds : exec ex Blocking ds [EBlock (xin ex XBlock)] ONormal ds
 | X_unknown ex ds tr o ds1 : exec ex Unknown ds tr o ds1      (* anything may happen *)
 
 (* a function frame: the body, then the deferred actions, last deferred first *)
@@ -216,6 +222,7 @@ Definition okev (h : held) (e : ev) : bool :=
   match e with
   | ERel m md => existsb (lk_eqb (m, md)) h && extra h e       (* only what is held is released *)
   | EYield x => (x || is_nil h) && extra h e                    (* nothing is held at a dynamic call / join *)
+  | EBlock x => (x || is_nil h) && extra h e                    (* nothing is held across an unbounded wait *)
   | _ => extra h e
   end.
 
@@ -297,6 +304,7 @@ Definition viol_code (v : viol) : nat * nat * nat * held * list nat :=
     | VEvent (EAcq m md _) => (3, m, mode_code md)
     | VEvent (ERel m md) => (4, m, mode_code md)
     | VEvent (EYield _) => (5, 0, 0)
+    | VEvent (EBlock _) => (10, 0, 0)
     | VLoop => (6, 0, 0)
     | VUnknown => (7, 0, 0)
     | VFuel => (8, 0, 0)
@@ -357,6 +365,7 @@ Fixpoint chk (fuel : nat) (c : ctx) (s : stmt) (k : cfg) {struct fuel} : res :=
     | Ret => ([], [(ORet, k)])
     | Callback => do_ev c (EYield (xin (cx_ex c) XYield)) k
     | Join => do_ev c (EYield (xin (cx_ex c) XYield)) k
+    | Blocking => do_ev c (EBlock (xin (cx_ex c) XBlock)) k
     | Unknown => ([vio c VUnknown (fst k)], [])
     end
   end
